@@ -3,8 +3,8 @@
 Written from the module docstring and function docstrings of
 mir_eval/multipitch.py (Poliner & Ellis 2007, Bay et al. 2009).  Nothing here
 imports or calls mir_eval.  Algorithms differ from the library's on purpose:
-nearest-neighbour resampling by a brute-force scan over all estimate frames in
-exact rational arithmetic (no scipy.interpolate), ``math.log2`` for MIDI
+nearest-neighbour resampling by ``bisect`` on exact rational times (no
+scipy.interpolate), ``math.log2`` for MIDI
 numbers, all-pairs feasibility and an own Kuhn augmenting-path maximum matching
 per frame (no sorted windows, no Hopcroft-Karp), integer arithmetic for the
 counts.
@@ -27,6 +27,7 @@ meaning of ``margin``.  Threshold comparisons of this module:
 """
 
 from fractions import Fraction
+import bisect
 import math
 
 import numpy as np
@@ -137,7 +138,8 @@ def resample_multipitch(times, frequencies, target_times):
     S = [_fr(x) for x in src]
     lo, hi = S[0], S[-1]          # "the range of times" (times are ordered)
     margin = INF
-    if any(S[i + 1] < S[i] for i in range(len(S) - 1)):
+    ordered = all(S[i + 1] >= S[i] for i in range(len(S) - 1))
+    if not ordered:
         margin = 0.0              # documented precondition: increasing times
     out = []
     for x in tgt:
@@ -150,10 +152,16 @@ def resample_multipitch(times, frequencies, target_times):
         if q < lo or q > hi:
             out.append(np.array([]))
             continue
-        # nearest neighbour by brute force; second-nearest for the margin
+        # nearest neighbour and second-nearest (for the margin).  With ordered
+        # times both lie among the samples adjacent to q; otherwise scan all.
+        if ordered:
+            pos = bisect.bisect_left(S, q)
+            candidates = range(max(0, pos - 2), min(len(S), pos + 2))
+        else:
+            candidates = range(len(S))
         best, best_d, second_d = -1, None, None
-        for i, s in enumerate(S):
-            d = abs(q - s)
+        for i in candidates:
+            d = abs(q - S[i])
             if best_d is None or d < best_d:
                 best, second_d, best_d = i, best_d, d
             elif second_d is None or d < second_d:
